@@ -66,6 +66,25 @@ def triangle_lemma(k):
   return fn
 
 
+def int_inputs(est_name):
+  """NOT solver-decided (dtype handling is C-level): the axioms on integer-dtype query arrays"""
+  def fn(ctx):
+    rs = np.random.RandomState(5)
+    L = rs.randn(2, 3)
+    est = mahal.fitted(est_name, L)
+    f = est.get_metric()
+    for _ in range(40):
+      x, y, z = rs.randint(-4, 5, size=(3, 3))
+      D = est.pair_distance(np.array([[x, y], [y, z], [x, z], [y, x], [x, x]]))
+      Df = est.pair_distance(np.array([[x, y], [y, z], [x, z], [y, x], [x, x]], dtype=float))
+      ctx.require('int_dtype_same_as_float', ctx.all_eq(D, Df, tol=1e-12))
+      ctx.require('int_dtype_triangle', ctx.le(D[2], D[0] + D[1], tol=1e-12))
+      ctx.require('int_dtype_symmetric', ctx.eq(D[0], D[3], tol=0.0))
+      ctx.require('int_dtype_self_zero', ctx.eq(D[4], 0.0, tol=0.0))
+      ctx.require('int_dtype_metric_fun', ctx.eq(f(x, y), Df[0], tol=1e-12))
+  return fn
+
+
 def structure():
   """every estimator resolves the distance API to the shared implementation that the symbolic
   cases execute (checked per group: a subclass override gets its own symbolic run)."""
@@ -88,7 +107,11 @@ def cases(tier, seed):
       tiers = ('quick', 'thorough') if (k, d) in kd_quick else ('thorough',)
       out.append(case('axioms_g%d_k%d_d%d' % (gi, k, d), axioms(rep, k, d), FUNCS,
                       'components_ arbitrary real %dx%d, three arbitrary real points, group %s (run on %s)'
-                      % (k, d, g, rep), tiers=tiers, cost=k * d, proof_timeout_ms=120000))
+                      % (k, d, g, rep), tiers=tiers, cost=k * d, proof_timeout_ms=120000,
+                      relative_tol=True, tol=1e-9))
+    out.append(case('int_inputs_g%d' % gi, int_inputs(rep), FUNCS,
+                    'fixed random components_ 2x3, 40 random integer-dtype point triples (concrete differential run, not solver-decided)',
+                    concrete_only=True, validate=1))
   for k in (2, 3, 4):
     out.append(case('triangle_lemma_k%d' % k, triangle_lemma(k), ['(lemma over the reals, no repository code)'],
                     'u, v arbitrary in R^%d' % k, tiers=('quick', 'thorough') if k <= 3 else ('thorough',),
